@@ -20,6 +20,9 @@ var propTable = map[string]propDesc{
 			"R28: the chunked int coders reused from term to term are Reset after each term is written",
 			"R29: every component encoded per location (field, position, start, end, array-position count) is computed from that very location",
 			"R29b: the frequency and has-locations flag encoded with a posting are computed inside the loop over the postings",
+			"R36: the norm word of a freq/norm record is written exactly when the encoded frequency is non-zero, and every reader (read, skip) consumes it exactly when the decoded frequency is non-zero",
+			"R37: the build path's reused int coders are given the term's chunk size (SetChunkSize) after creation / Reset and before the first posting of the term is added",
+			"R29c: what is appended per location is computed from that location (no variable carrying the previous location's value round the loop)",
 		},
 		NotDecided: []string{"which documents/frequencies/norms/locations come back", "sizing of the shared backing arrays by the counting pass", "varint contents"},
 		Explain:    "Narrow claim: writer/reader agreement on chunk-size derivation is a necessary condition named in the property's own anchors.",
@@ -29,6 +32,7 @@ var propTable = map[string]propDesc{
 			"R19a: in the stored-field visitor loop every later visitor call is dominated by the continue-edge of a branch on the earlier visitor result (stop request honoured on every path)",
 			"R19b: every use of a document number to index the stored-offset table is dominated by a guard with truth table {num<numDocs: read, =: skip, >: skip}",
 			"R19c: no argument handed to the visitor inside the loop over stored values is a loop-carried variable",
+			"R29c: what the builder appends per stored value (array positions) is computed from that value",
 			"R26: DocNumbers looks at every given id (loop left early only on error)",
 			"R33: the running data offset and buffer of persistStoredFieldValues are handed back as accumulated",
 			"R27: stored-document index entries are u64 big endian at storedIndexOffset + 8*docNum on both sides",
@@ -64,6 +68,8 @@ var propTable = map[string]propDesc{
 			"R24: dropped documents get the sentinel and nothing else; every consumer of the renumbering tests the sentinel first",
 			"R16: the field-record offset 0 ('absent' for the reader) cannot be written by the merge (known finding F6 on the no-survivor path)",
 			"R25d: the per-field scratch tables of the stored-field merge are reset over the length they were allocated with",
+			"R10e: a per-field accumulator struct that is reset between documents truncates every one of its slice fields",
+			"R27: the stored-document index entry of a merged document is read back at the same stride by the byte-copy path",
 		},
 		NotDecided: []string{"consecutive numbering of survivors", "content of carried-over stored data", "DocID/DocNumbers answers"},
 	},
@@ -80,6 +86,8 @@ var propTable = map[string]propDesc{
 			"R12: the postings list / iterator reused across all terms of a merge is fully reset",
 			"R31/R33/R34: decoders fill reused objects completely; accumulators are threaded; synthesised 1-hit bytes carry the entry's own norm",
 			"R32: the 1-hit encoding is chosen exactly under the documented conditions",
+			"R36: the norm word of a freq/norm record is written exactly when the encoded frequency is non-zero, and every reader (read, skip) consumes it exactly when the decoded frequency is non-zero",
+			"R37: the merge's reused int coders are given the merged term's chunk size after creation / Reset and before the first posting of every term, the first term of a field included (conditions tested twice per iteration are correlated; a loop-carried variable that enters as nil is nil in the first iteration)",
 		},
 		NotDecided: []string{"merged frequencies/norms/locations/doc values", "enumerator ordering", "1-hit encoding decisions"},
 	},
@@ -88,6 +96,7 @@ var propTable = map[string]propDesc{
 			"R12: every reuse path resets every field except tabled buffers, and cleans the buffers whose stale content would be read",
 			"R11: a decoded postings list's encoding tag describes the entry just decoded",
 			"R11b: the bitmap of a postings list is used only after its 1-hit tag was found zero",
+			"R36: the norm word of a freq/norm record is written exactly when the encoded frequency is non-zero, and every reader (read, skip) consumes it exactly when the decoded frequency is non-zero",
 		},
 		NotDecided: []string{"lock-step of the three cursors under Next/Advance", "Count arithmetic"},
 	},
@@ -104,6 +113,8 @@ var propTable = map[string]propDesc{
 			"R30: getChunkSize computes the documented v16 chunk size on every region of (mode, cardinality, document count)",
 			"R27: fixed-width big-endian records below the footer (field-table pairs, fields index, stored-document index, doc-value trailer) keep their widths, strides and order on both sides",
 			"R27e: stored blocks are always snappy-encoded / decoded (no length-dependent omission)",
+			"R36: the norm word of a freq/norm record is written exactly when the encoded frequency is non-zero, and every reader (read, skip) consumes it exactly when the decoded frequency is non-zero",
+			"R25/R28b/R32: index spaces of the merged cardinality computation, co-reset of the synonym id maps, 1-hit conditions (what ends up in the file for the same logical content)",
 		},
 		NotDecided: []string{"the uvarint streams below the footer: section table, postings records, stored blocks, doc-value chunks, thesaurus blocks", "files frozen from the pinned release cannot be read by a static check"},
 	},
@@ -139,6 +150,10 @@ var propTable = map[string]propDesc{
 		Decides: []string{
 			"R18: merged thesaurus addresses and field->thesaurus map are wired into the field table",
 			"R24: remapped document numbers are tested against the drop sentinel before being encoded",
+			"R25/R26: the per-field compacted tables are indexed in their own space; loops over fields and segments are exhaustive",
+			"R28b: the synonym-id maps (term->id, id->term) of a field are re-created or cleared together",
+			"R35a: the (id, document) code is built and split at bit 32 with the same operand order",
+			"R12: the synonyms list reused across terms is fully reset",
 		},
 		NotDecided: []string{"surviving (synonym, document) pairs", "id re-assignment"},
 		Explain:    "Narrow claim.",
@@ -188,6 +203,7 @@ var propTable = map[string]propDesc{
 	"C20": {
 		Decides: []string{
 			"R9: refs only under the mutex; release exactly at the 1->0 guard; single owner of Unmap/file Close; caches cleared before unmapping; in-memory Close clears caches and returns nil",
+			"R9 clear-only-at-last-release: the caches of a file-backed segment are cleared only under the refs == 0 outcome of the release guard",
 			"R6: Open's failure paths close",
 			"R2: lockset on Segment.refs",
 		},
